@@ -11,7 +11,9 @@ Bd(d) == [k |-> "bd", d |-> d]
 Thin == {Par(V2(-10, -2), V2(10, -2), V2(-10, -1)), Par(<<A1(-8, "t"), A0(-4)>>, <<A1(-7, "t"), A0(-4)>>, <<A1(-8, "t"), A0(8)>>)}     \* aspect ratios 20 and 12
 \* the origin moves while the other corners stay: position and shape change together
 Shear == {Par(<<A1(0, "t"), A0(0)>>, V2(12, 0), V2(4, 4)), Tri(<<A1(-8, "k"), A0(-4)>>, V2(8, -4), V2(0, 8))}
-Basics == Prims2 \cup Ints \cup {Sph, SphT, Pt, PtT} \cup Thin \cup Shear \cup Polys \cup Meshes \cup {MeshBox}
+\* whole-number centres / corners with fractional radius (the driver also hands them over as integer tensors)
+IntPos == {Cir(V2(4, -8), A0(2)), Cir(V2(0, 0), A0(6)), [k |-> "sphere", v |-> "y", c |-> <<A0(4), A0(0), A0(-4)>>, r |-> A0(2)], Par(V2(-8, -4), V2(4, -4), V2(-8, 4))}
+Basics == IntPos \cup Prims2 \cup Ints \cup {Sph, SphT, Pt, PtT} \cup Thin \cup Shear \cup Polys \cup Meshes \cup {MeshBox}
 Bds == {Bd(p) : p \in Prims2 \cup Ints \cup {Sph, SphT} \cup Polys \cup Meshes} \cup {[k |-> "bdl", d |-> i] : i \in Ints} \cup {[k |-> "bdr", d |-> i] : i \in Ints}
 Envs == {[t |-> a, k |-> b] : a \in 0..2, b \in 0..2}
 Lat2 == {-896 + 96 * i + 7 : i \in 0..18}
